@@ -111,6 +111,9 @@ def build_trace(cfg, log, model, kind='managed'):
         a = [conv(x) for x in st['act']]
         step = {'act': a, 'env': [[conv(x) for x in e] for e in st['env']]}
         step['thread'] = a[1] if a[0] in ('get', 'poll', 'cancel', 'drop', 'take', 'step', 'uget', 'uadd', 'tclose') else 'C'
+        # a controller operation issued by a task thread (cfg task_ctl): ('resize', n, thread) / ('close', thread)
+        if a[0] == 'resize' and len(a) > 2: step['thread'] = a[2]
+        if a[0] == 'close' and len(a) > 1: step['thread'] = a[1]
         if cfg.get('thread_mode') and (si < nprefix or st.get('probe')): step['atomic'] = True
         if any(e[0] == 'timer' and e[2] == 'expired' for e in st['env']):
             step['advance_ns'] = STEP_NS; done += 1
